@@ -149,9 +149,11 @@ namespace l2cap {
     template < typename ConnectionData >
     void signaling_channel< Options... >::l2cap_input( const std::uint8_t* input, std::size_t in_size, std::uint8_t* output, std::size_t& out_size, ConnectionData& )
     {
-        const std::uint8_t code = in_size > 0 ? input[ 0 ] : 0;
+        const std::uint8_t code       = in_size > 0 ? input[ 0 ] : 0;
+        const std::uint8_t identifier = in_size > 1 ? input[ 1 ] : invalid_identifier;
 
-        if ( code == connection_parameter_update_response_code && pending_status_ == transmitted )
+        // only the response to the request that was send, completes that request
+        if ( code == connection_parameter_update_response_code && pending_status_ == transmitted && identifier == identifier_ )
         {
             pending_status_ = idle;
             identifier_ = static_cast< std::uint8_t >( identifier_ + 1 );
